@@ -25,12 +25,17 @@ func propMachine(t *rapid.T, c *cx) {
 	co, coClass := drawElems(t, c, size, "coef")
 	sh := &shared{c: c, p: ref.NewPoly(c.F, co), size: size, s: s, tabs: map[int]*tables{}}
 	f := rapid.SampledFrom(allForms).Draw(t, "form")
+	var classes0 []string
 	m := newModel(sh, f, size*rho0)
+	if rho0 == 1 && rapid.IntRange(0, 2).Draw(t, "spare") == 0 {
+		m = newModelSpare(sh, f, size, rapid.SampledFrom([]int{1, size, 3*size + 3}).Draw(t, "sparecap"))
+		classes0 = append(classes0, "init_spare_capacity")
+	}
 	maxLen := 4 * size
 	if m.n > maxLen {
 		maxLen = m.n
 	}
-	classes := []string{"init:" + f.String(), fmt.Sprintf("size:%d", size), "coeffs:" + coClass}
+	classes := append(classes0, "init:"+f.String(), fmt.Sprintf("size:%d", size), "coeffs:"+coClass)
 	if rho0 > 1 {
 		classes = append(classes, "init_extended")
 	}
@@ -64,6 +69,7 @@ func propMachine(t *rapid.T, c *cx) {
 			}
 			name := opNames[a]
 			classes = append(classes, "op:"+name)
+			classes = append(classes, m.tags...)
 			if strings.HasPrefix(name, "To") || strings.HasPrefix(name, "Grow") {
 				conv++
 			}
